@@ -600,8 +600,16 @@ func evalCases(cases []TCase, o *common.Options, rep *common.Report) error {
 		go func() {
 			defer wg.Done()
 			defer func() { <-sem }()
-			if pan := common.Safely(func() { res[i] = runCase(c) }); pan != nil {
-				res[i] = result{c: c, harnessErr: fmt.Sprintf("panic in harness: %v", pan)}
+			for attempt := 0; attempt < 3; attempt++ {
+				t0 := time.Now()
+				if pan := common.Safely(func() { res[i] = runCase(c) }); pan != nil {
+					res[i] = result{c: c, harnessErr: fmt.Sprintf("panic in harness: %v", pan)}
+				}
+				// real timestamps are validated within ±30 s by the code under test: a stalled session is not an answer
+				if time.Since(t0) <= 15*time.Second {
+					break
+				}
+				res[i] = result{c: c, harnessErr: "infrastructure: session stalled"}
 			}
 		}()
 	}
